@@ -65,9 +65,11 @@ def ident(name, module, lean_open, capacity, nb, tokens=None, level=None):
     return DW(inst, nb)
 
 
-def fifo(depth, buffered, layout, nb, name, tokens=None):
+def fifo(depth, buffered, layout, nb, name, tokens=None, glue=False):
+    """glue: the constructor's three-way selection on depth/buffered is done by the model (`sfifo`)."""
     m = stream.SyncFIFO(layout, depth, buffered=buffered)
-    lean = ("wire" if depth == 0 else "pipevalid" if depth == 1 else
+    lean = ("sfifo %d %d" % (depth, b(buffered)) if glue else
+            "wire" if depth == 0 else "pipevalid" if depth == 1 else
             ("syncfifo_buffered %d" if buffered else "syncfifo %d") % depth)
     cap = depth + 1 if (buffered and depth >= 2) else depth
     return ident(name, m, lean, cap, nb, tokens=tokens, level=m.level if depth >= 2 else None)
@@ -81,7 +83,7 @@ def wide_tokens(nbits, k=10):
     return [(d, f, l) for d in vals for f in (0, 1) for l in (0, 1)]
 
 
-def mk_up(r, nb, rev, raw=True, tokens=None, conv_vtc=False):
+def mk_up(r, nb, rev, raw=True, tokens=None, conv_vtc=False, glue=False):
     """_UpConverter (raw=True: valid_token_count visible), Converter without the count, or (conv_vtc) the class
     selected by Converter(report_valid_token_count=True)."""
     if conv_vtc:
@@ -90,22 +92,26 @@ def mk_up(r, nb, rev, raw=True, tokens=None, conv_vtc=False):
         assert m.ratio == r
     else:
         m = stream._UpConverter(nb, nb * r, r, rev) if raw else stream.Converter(nb, nb * r, reverse=rev)
-    name = "%s(%d->%d%s%s)" % ("_UpConverter" if raw and not conv_vtc else "Converter", nb, nb * r,
-                               ",reverse" if rev else "", ",vtc" if conv_vtc else "")
-    return DW(RG(StreamInst(name, m, "up %d %d 0 %d %d" % (r, nb, b(rev), b(raw)), tokens=tokens or toks(nb),
+    name = "%s(%d->%d%s%s)%s" % ("_UpConverter" if raw and not conv_vtc else "Converter", nb, nb * r,
+                                 ",reverse" if rev else "", ",vtc" if conv_vtc else "", "/glue" if glue else "")
+    lean = ("up %d %d 0 %d %d" % (r, nb, b(rev), b(raw)) if isinstance(m, stream._UpConverter) or not glue else
+            "converter %d %d %d %d" % (nb, nb * r, b(rev), b(conv_vtc)))
+    return DW(RG(StreamInst(name, m, lean, tokens=tokens or toks(nb),
                             spec=lambda: L.NoLoss(L.UpScoreboard(r, nb, 0, rev, vtc=raw), lambda m: len(m.words) > 0, 4))), nb)
 
 
-def mk_down(r, nb, rev, raw=True, tokens=None, conv_vtc=False):
+def mk_down(r, nb, rev, raw=True, tokens=None, conv_vtc=False, glue=False):
     if conv_vtc:
         raw = True
         m = stream.Converter(nb * r, nb, reverse=rev, report_valid_token_count=True)
         assert m.ratio == r
     else:
         m = stream._DownConverter(nb * r, nb, r, rev) if raw else stream.Converter(nb * r, nb, reverse=rev)
-    name = "%s(%d->%d%s%s)" % ("_DownConverter" if raw and not conv_vtc else "Converter", nb * r, nb,
-                               ",reverse" if rev else "", ",vtc" if conv_vtc else "")
-    return DW(RG(StreamInst(name, m, "down %d %d 0 %d %d" % (r, nb, b(rev), b(raw)), tokens=tokens or toks(nb * r),
+    name = "%s(%d->%d%s%s)%s" % ("_DownConverter" if raw and not conv_vtc else "Converter", nb * r, nb,
+                                 ",reverse" if rev else "", ",vtc" if conv_vtc else "", "/glue" if glue else "")
+    lean = ("down %d %d 0 %d %d" % (r, nb, b(rev), b(raw)) if isinstance(m, stream._DownConverter) or not glue else
+            "converter %d %d %d %d" % (nb * r, nb, b(rev), b(conv_vtc)))
+    return DW(RG(StreamInst(name, m, lean, tokens=tokens or toks(nb * r),
                             spec=lambda: L.DownScoreboard(r, nb, 0, rev, vtc=raw))), nb * r)
 
 
@@ -280,6 +286,184 @@ def mk_bufferized_up(r, nb, rev, tokens=None):
                             "bufferized_up %d %d %d" % (r, nb, b(rev)), tokens=tokens or toks(nb),
                             spec=lambda: L.NoLoss(L.UpScoreboard(r, nb, 0, rev, vtc=True, max_words=3),
                                                    lambda m: len(m.words) > 0, 8))), nb)
+
+
+
+STAGE_CAP = {"w": 0, "v": 1, "r": 1}
+
+
+def stage_cap(codes):
+    """Occupancy bound of a Pipeline of identity stages, from the documentation of each stage."""
+    return sum(STAGE_CAP[c] if c in STAGE_CAP else int(c[1:]) + (1 if c[0] == "b" else 0) for c in codes)
+
+
+def mk_stages(codes, nb, tokens=None, pw=0):
+    """stream.Pipeline(sink, m_1, ..., m_n, source) over any list of identity stages: w = a bare Endpoint,
+    v = PipeValid, r = PipeReady, f<d> = SyncFIFO(d), b<d> = SyncFIFO(d, buffered=True) (d >= 2)."""
+    from litex.gen import LiteXModule
+    lay = ED([("data", nb)], [("p", pw)] if pw else [])
+
+    class P(LiteXModule):
+        def __init__(self):
+            self.sink, self.source = stream.Endpoint(lay), stream.Endpoint(lay)
+            mods = []
+            for k, c in enumerate(codes):
+                m = (stream.Endpoint(lay) if c == "w" else stream.PipeValid(lay) if c == "v" else
+                     stream.PipeReady(lay) if c == "r" else stream.SyncFIFO(lay, int(c[1:]), buffered=(c[0] == "b")))
+                if c != "w":
+                    setattr(self, "m%d" % k, m)
+                mods.append(m)
+            self.pipeline = stream.Pipeline(self.sink, *mods, self.source)
+
+    return ident("Pipeline(%s)/%db%s" % (",".join(codes) or "-", nb, "+p%d" % pw if pw else ""), P(),
+                 "stages w %s w" % " ".join(codes), stage_cap(codes), nb + pw, tokens=tokens)
+
+
+def mk_buffer(pv, pr, nb, tokens=None):
+    return ident("Buffer(%s%s)/%db" % ("v" if pv else "", "r" if pr else "", nb), stream.Buffer([("data", nb)], pv, pr),
+                 "buffer %d %d" % (b(pv), b(pr)), b(pv) + b(pr), nb, tokens=tokens)
+
+
+def mk_delayn(nb, n, tokens=None):
+    return ident("Delay(%db,%d)/glue" % (nb, n), stream.Delay([("data", nb)], n), "delayn %d" % n, n, nb, tokens=tokens)
+
+
+def mk_cdc_same(nb, buffered, tokens=None):
+    m = stream.ClockDomainCrossing([("data", nb)], "sys", "sys", buffered=buffered)
+    return ident("ClockDomainCrossing(sys->sys%s)/%db" % (",buffered" if buffered else "", nb), m,
+                 "cdcsame %d" % b(buffered), b(buffered), nb, tokens=tokens)
+
+
+def mk_bufferize(bs, bd, pv, pr, kind, r, nb, pw, rev, tokens=None, fields=None):
+    """BufferizeEndpoints({sink if bs, source if bd}, pipe_valid=pv, pipe_ready=pr) around _UpConverter (pw == 0,
+    count reported) / Pack (pw > 0 or fields) / _DownConverter / Unpack."""
+    d = {}
+    if bs:
+        d["sink"] = stream.DIR_SINK
+    if bd:
+        d["source"] = stream.DIR_SOURCE
+    T = stream.BufferizeEndpoints(d, pipe_valid=pv, pipe_ready=pr)
+    packed = bool(pw or fields)
+    # a plain list layout when there are no params: Pack/Unpack given an EndpointDescription object modify it in
+    # place (reported defect C03-pack-description-aliasing), after which BufferizeEndpoints cannot be applied
+    desc = ED(_payload(nb, fields), [("p", pw)]) if pw else _payload(nb, fields)
+    nbuf = b(pv) + b(pr)
+    tag = "BufferizeEndpoints(%s%s,%s%s)" % ("sink" if bs else "", "+source" if bd else "", "v" if pv else "", "r" if pr else "")
+    if kind == "up":
+        m = T(stream.Pack)(desc, r, reverse=rev) if packed else T(stream._UpConverter)(nb, nb * r, r, rev)
+        vtc = not packed
+        name = "%s(%s(%s%s x%d%s))" % (tag, "Pack" if packed else "_UpConverter", fields or nb, "+p%d" % pw if pw else "", r,
+                                       ",reverse" if rev else "")
+        return DW(RG(StreamInst(name, m, "bufferize %d %d %d %d up %d %d %d %d %d" % (b(bs), b(bd), b(pv), b(pr), r, nb, pw, b(rev), b(vtc)),
+                                tokens=tokens or toks(nb + pw),
+                                spec=lambda: L.NoLoss(L.UpScoreboard(r, nb, pw, rev, vtc=vtc, max_words=1 + (b(bs) + b(bd)) * nbuf),
+                                                       lambda m: len(m.words) > 0, 8))), nb + pw)
+    assert bs and pv, "the queue oracle of a buffered down-converter needs a registered sink"
+    m = T(stream.Unpack)(r, desc, reverse=rev) if packed else T(stream._DownConverter)(nb * r, nb, r, rev)
+    vtc = not packed
+    name = "%s(%s(%s%s /%d%s))" % (tag, "Unpack" if packed else "_DownConverter", fields or nb, "+p%d" % pw if pw else "", r,
+                                   ",reverse" if rev else "")
+    return DW(RG(StreamInst(name, m, "bufferize %d %d %d %d down %d %d %d %d %d" % (b(bs), b(bd), b(pv), b(pr), r, nb, pw, b(rev), b(vtc)),
+                            tokens=tokens or toks(nb * r + pw),
+                            spec=lambda: L.NoLoss(L.QueueDownScoreboard(r, nb, pw, rev, vtc=vtc,
+                                                                        max_lanes=r * nbuf + b(bd) * nbuf),
+                                                   lambda m: len(m.q) > 0, 8))), nb * r + pw)
+
+
+def mk_monitor(w, delim_first, cfg, via_csr=False, letters=None):
+    return L.MonitorInst("Monitor(w=%d,%s,%s%s)" % (w, "first" if delim_first else "last",
+                                                   "".join(n for n, c in zip("toup", cfg) if c), ",csr" if via_csr else ""),
+                         w, delim_first, cfg, via_csr=via_csr, letters=letters)
+
+
+def glue_calls(ctx):
+    """Python-level glue compared with the model's selection functions (exhaustive over small arguments):
+    `_get_converter_ratio` (class, ratio, ValueError), the selector width of Multiplexer/Demultiplexer, and the
+    structure SyncFIFO/Buffer/Delay really build (which sub-blocks exist) against `stages_of`."""
+    from explore import Disagreement
+    from migen.genlib import fifo as mfifo
+    out = []
+
+    def report(what, impl, model):
+        d = Disagreement(None, [], 0, impl, model, kind="correspondence")
+        d.inst_name = what
+        d.lean_open = "call"
+        out.append(d)
+
+    N = 40 if ctx.tier == "quick" else 96
+    code = {stream._DownConverter: 0, stream._UpConverter: 1, stream._IdentityConverter: 2}
+    reqs, want = [], []
+    for nf in range(1, N + 1):
+        for nt in range(1, N + 1):
+            try:
+                cls, ratio = stream._get_converter_ratio(nf, nt)
+                want.append("%d %d" % (code[cls], ratio))
+            except ValueError:
+                want.append("none")
+            reqs.append("converter_kind %d %d" % (nf, nt))
+    got = ctx.lean.call_batch(reqs)
+    bad = [(r, w, g) for r, w, g in zip(reqs, want, got) if w != g]
+    for r, w, g in bad[:3]:
+        report("_get_converter_ratio: " + r, w, g)
+    ctx.cov.add_cases("_get_converter_ratio vs converterKind, all widths 1..%d" % N, len(reqs),
+                      sum(1 for w in want if w != "none"), exhaustive=True)
+    # the Converter constructor really instantiates that class (and raises where the model has no machine)
+    n2 = 0
+    for nf, nt in ((8, 32), (32, 8), (8, 8), (24, 8), (8, 24), (12, 8), (7, 21), (64, 64), (3, 2)):
+        for vtc in (False, True):
+            try:
+                c = stream.Converter(nf, nt, report_valid_token_count=vtc)
+                impl = "%d %d vtc=%d" % (code[c.cls], c.ratio, int(hasattr(c.source, "valid_token_count")))
+            except ValueError:
+                impl = "none"
+            g = ctx.lean.call("converter_kind", nf, nt)
+            model = g if g == "none" else "%s vtc=%d" % (g, int(vtc))
+            n2 += 1
+            if impl != model:
+                report("Converter(%d,%d,report_valid_token_count=%s)" % (nf, nt, vtc), impl, model)
+    ctx.cov.add_cases("Converter constructor: class, ratio, count port", n2, n2, exhaustive=False)
+    # selector width
+    ns = list(range(1, 70))
+    got = ctx.lean.call_batch(["selwidth %d" % n for n in ns])
+    k = 0
+    for n, g in zip(ns, got):
+        for cls in (stream.Multiplexer, stream.Demultiplexer):
+            if n <= 9 or n in (16, 17, 32, 33, 64, 65):
+                k += 1
+                wimpl = len(cls([("data", 1)], n).sel)
+                if str(wimpl) != g:
+                    report("%s(n=%d).sel width" % (cls.__name__, n), wimpl, g)
+        if str(L.bits_for(max(n, 2) - 1)) != g:
+            report("documented selector width bits_for(max(%d,2)-1)" % n, L.bits_for(max(n, 2) - 1), g)
+    ctx.cov.add_cases("selector width of Multiplexer/Demultiplexer", k, k, exhaustive=False)
+    # structure of SyncFIFO / Buffer / Delay
+    k = 0
+    for depth in (0, 1, 2, 3, 4, 5, 8, 16):
+        for buffered in (False, True):
+            m = stream.SyncFIFO([("data", 4)], depth, buffered=buffered)
+            if hasattr(m, "fifo"):
+                impl = "= %s%d" % ("b" if isinstance(m.fifo, mfifo.SyncFIFOBuffered) else "f", m.fifo.depth)
+            else:
+                bufs = [x for _, x in m._submodules if isinstance(x, stream.Buffer)]
+                impl = "= " + " ".join(("v" if hasattr(x, "pipe_valid") else "") + (" r" if hasattr(x, "pipe_ready") else "")
+                                        for x in bufs)
+                impl = impl.rstrip()
+            g = ctx.lean.call("stages_of", "sfifo", depth, int(buffered)).rstrip()
+            k += 1
+            if impl.split() != g.split():
+                report("SyncFIFO(depth=%d,buffered=%s) structure" % (depth, buffered), impl, g)
+            if m.depth != depth:
+                report("SyncFIFO(depth=%d).depth" % depth, m.depth, depth)
+    for pv in (False, True):
+        for pr in (False, True):
+            m = stream.Buffer([("data", 4)], pv, pr)
+            impl = ["="] + (["v"] if hasattr(m, "pipe_valid") else []) + (["r"] if hasattr(m, "pipe_ready") else [])
+            g = ctx.lean.call("stages_of", "buffer", int(pv), int(pr))
+            k += 1
+            if impl != g.split():
+                report("Buffer(pipe_valid=%s,pipe_ready=%s) structure" % (pv, pr), impl, g)
+    ctx.cov.add_cases("structure of SyncFIFO/Buffer vs syncFifoStages/bufferStages", k, k, exhaustive=False)
+    return out
 
 
 def jobs(tier):
@@ -471,11 +655,135 @@ def jobs(tier):
     return J
 
 
+
+def glue_jobs(tier):
+    """Session-2 instances: the glue of stream.py (stage selection of Buffer/SyncFIFO/Delay/ClockDomainCrossing,
+    Pipeline over heterogeneous stage lists, BufferizeEndpoints with every option, Converter's class selection,
+    Monitor, selector widths) against the models of LitexModel/Stream/Glue.lean, and Pack/Unpack over multi-field
+    layouts.  Kept apart from `jobs` (props/c04.py re-uses that list with its own driver)."""
+    import time
+    quick = tier == "quick"
+    J = []
+    t_end = time.time() + (240 if quick else 2400)
+    S = L.Safe
+    A = lambda mk, **kw: J.append(Job("A", S(mk, "glue job %d (mode A)" % len(J)), max_states=kw.pop("max_states", 20000 if quick else 30000),
+                                      deadline=t_end, **kw))
+    B = lambda mk, **kw: J.append(Job("B", S(mk, "glue job %d (mode B)" % len(J)), cycles=2000 if quick else 20000, runs=1 if quick else 3, **kw))
+    T2 = [(0, 0, 1), (1, 1, 0)]
+    LP = ED([("data", 1)], [("p", 1)])
+    T2P = [(0, 0, 1), (3, 1, 0)]
+    L64 = [("data", 64)]
+
+    # ---- Buffer: all four flag combinations; SyncFIFO: every selection corner (0, 1, 2, odd) x buffered
+    for pv in (False, True):          # all four flag combinations; the stage selection is done by the model
+        for pr in (False, True):
+            A(lambda pv=pv, pr=pr: mk_buffer(pv, pr, 1))
+    for d in (0, 1, 2, 3) if quick else (0, 1, 2, 3, 4, 5):
+        for bf in (False, True):
+            A(lambda d=d, bf=bf: fifo(d, bf, L1, 1, "SyncFIFO(%d%s)/1b/glue" % (d, ",buffered" if bf else ""),
+                                      tokens=T2 if d >= 2 else None, glue=True))
+    A(lambda: fifo(2, False, LP, 2, "SyncFIFO(2)/1b+p1/glue", tokens=T2P, glue=True))
+    # ---- Pipeline of heterogeneous stage lists (bare Endpoints in the middle, FIFOs of both kinds, odd depths)
+    for codes in ((), ("w",), ("v", "f2", "r"), ("r", "w", "v"), ("b2", "v"), ("f3", "r"), ("r", "r"), ("v", "w", "w", "r", "v")) + \
+            (() if quick else (("b3", "f2"), ("v", "b2", "r", "f2"), ("f5",), ("r", "f2", "v", "w"))):
+        A(lambda codes=codes: mk_stages(list(codes), 1, tokens=T2 if any(c[0] in "fb" for c in codes) or len(codes) > 3 else None))
+    A(lambda: mk_delayn(1, 2, tokens=T2))
+    A(lambda: mk_delayn(1, 0))
+    for bf in (False, True):
+        A(lambda bf=bf: mk_cdc_same(1, bf))
+    # ---- BufferizeEndpoints: sink only / source only / both, pipe_valid / pipe_ready / both, up and down inside
+    TU = [(0, 0, 1), (1, 1, 0), (1, 0, 0)]
+    for (bs, bd, pv, pr) in ((1, 0, 1, 0), (0, 1, 0, 1), (1, 1, 0, 1), (1, 0, 1, 1)) + \
+            (() if quick else ((0, 1, 1, 0), (1, 0, 0, 1), (1, 1, 1, 1), (0, 1, 1, 1), (0, 0, 1, 1))):
+        A(lambda bs=bs, bd=bd, pv=pv, pr=pr: mk_bufferize(bs, bd, pv, pr, "up", 2 if bs and bd else 3, 1, 0, bool(pr),
+                                                          tokens=T2 if quick and bs and bd else TU),
+          max_states=6000 if quick else 60000)
+    A(lambda: mk_bufferize(1, 1, 1, 0, "up", 2, 2, 0, True, tokens=[(0, 0, 1), (3, 1, 0), (1, 0, 0)], fields=[1, 1]),
+      max_states=4000 if quick else 30000)
+    for (bd, pr) in ((0, 0), (1, 1)) + (() if quick else ((1, 0), (0, 1))):
+        A(lambda bd=bd, pr=pr: mk_bufferize(1, bd, 1, pr, "down", 3 if not pr else 2, 1, 0, bool(bd),
+                                            tokens=[(0, 0, 1), (5, 1, 0), (3, 1, 1)] if not pr else [(0, 0, 1), (2, 1, 0), (3, 1, 1)]),
+          max_states=4000 if quick else 30000)
+    A(lambda: mk_bufferize(1, 1, 1, 0, "down", 2, 2, 0, False, tokens=[(0, 0, 1), (0xb, 1, 0), (0xd, 1, 1)], fields=[1, 1]),
+      max_states=4000 if quick else 30000)
+    # ---- Monitor counters (2-bit and 1-bit counters saturate inside the explored product)
+    A(lambda: mk_monitor(2, False, (1, 0, 0, 0)))
+    A(lambda: mk_monitor(1, True, (0, 0, 0, 1), via_csr=True))
+    A(lambda: mk_monitor(1, False, (0, 1, 1, 0),
+                         letters=[l for l in itertools.product((0, 1), repeat=6) if l[4] == l[5]]))
+    if not quick:
+        A(lambda: mk_monitor(2, False, (0, 0, 0, 1)))
+        A(lambda: mk_monitor(3, True, (1, 0, 0, 0), via_csr=True))
+
+    # ---- Converter through the model's class selection (up / down / identity, count port or not)
+    for (nf, nt) in ((1, 3), (3, 1), (2, 2), (1, 2), (4, 2)):
+        for vtc in (False, True):
+            if nf < nt:
+                A(lambda nf=nf, nt=nt, vtc=vtc: mk_up(nt // nf, nf, vtc, raw=False, conv_vtc=vtc, glue=True))
+            elif nf > nt:
+                A(lambda nf=nf, nt=nt, vtc=vtc: mk_down(nf // nt, nt, not vtc, raw=False, conv_vtc=vtc, glue=True))
+            else:
+                A(lambda nf=nf, vtc=vtc: DW(RG(StreamInst("Converter(%d->%d%s)/glue" % (nf, nf, ",vtc" if vtc else ""),
+                                                          stream.Converter(nf, nf, report_valid_token_count=vtc),
+                                                          "converter %d %d 0 %d" % (nf, nf, b(vtc)), tokens=toks(nf),
+                                                          spec=lambda: L.DownScoreboard(1, nf, 0, False, vtc=vtc))), nf))
+    # ---- Pack / Unpack over multi-field layouts, n not a power of two, unequal field widths, params
+    TF = [(d, f, l) for d in ((0, 5) if quick else (0, 7, 5, 2)) for (f, l) in ((0, 0), (1, 1))] + [(6, 1, 0), (3, 0, 1)]
+    A(lambda: mk_pack(3, 3, 0, False, fields=[1, 2], tokens=TF), max_states=3000 if quick else 30000)
+    A(lambda: mk_pack(2, 3, 1, True, fields=[2, 1], tokens=[(d, f, l) for d in (0, 15, 5, 10, 6) for (f, l) in ((0, 0), (1, 1))]),
+      max_states=3000 if quick else 30000)
+    A(lambda: mk_unpack(3, 3, 0, True, fields=[1, 2], tokens=wide_tokens(9, 8)))
+    A(lambda: mk_unpack(2, 3, 1, False, fields=[2, 1], tokens=wide_tokens(7, 8)))
+    # ---- routing
+    for n in (2, 3):      # selector driven beyond its documented width: the port keeps bits_for(max(n,2)-1) bits
+        A(lambda n=n: L.widen_sel(L.MuxInst("Multiplexer(%d)/wide-sel" % n, stream.Multiplexer(L1, n), n, nb=1)))
+        A(lambda n=n: L.widen_sel(L.DemuxInst("Demultiplexer(%d)/wide-sel" % n, stream.Demultiplexer(L1, n), n, nb=1)))
+
+    # ---- mode B
+    B(lambda: mk_delayn(64, 2))
+    B(lambda: mk_delayn(16, 5))
+    B(lambda: mk_buffer(False, True, 32))
+    B(lambda: mk_buffer(True, True, 128))
+    B(lambda: mk_cdc_same(32, True))
+    B(lambda: mk_stages(["v", "f7", "w", "r", "b5", "v"], 32, pw=4))
+    B(lambda: mk_stages(["r", "b16", "f3", "r", "v", "w", "f2"], 64))
+    B(lambda: mk_stages(["f9", "v", "v", "r", "b2"], 8, pw=3))
+    B(lambda: mk_bufferize(1, 1, 1, 1, "up", 5, 8, 0, True, fields=[3, 5]))
+    B(lambda: mk_bufferize(0, 1, 0, 1, "up", 4, 16, 0, False))
+    B(lambda: mk_bufferize(1, 0, 1, 0, "up", 3, 24, 0, False, fields=[7, 9, 8]))
+    B(lambda: mk_bufferize(1, 1, 1, 1, "down", 6, 8, 0, True))
+    B(lambda: mk_bufferize(1, 0, 1, 0, "down", 3, 32, 0, False))
+    B(lambda: mk_bufferize(1, 1, 1, 0, "down", 5, 12, 0, True, fields=[5, 4, 3]))
+    B(lambda: mk_monitor(8, False, (1, 1, 1, 1)))
+    B(lambda: mk_monitor(32, True, (1, 1, 1, 1), via_csr=True))
+    B(lambda: mk_monitor(3, False, (1, 0, 1, 1)))
+    B(lambda: mk_pack(3, 12, 4, False, fields=[5, 4, 3]))
+    B(lambda: mk_pack(7, 9, 0, True, fields=[1, 8]))
+    B(lambda: mk_unpack(5, 12, 4, True, fields=[5, 4, 3]))
+    B(lambda: mk_unpack(7, 9, 2, False, fields=[1, 8]))
+    for n in (5, 6):
+        B(lambda n=n: L.widen_sel(L.MuxInst("Multiplexer(%d)/8b/wide-sel" % n, stream.Multiplexer(L8, n), n, nb=8)))
+        B(lambda n=n: L.widen_sel(L.DemuxInst("Demultiplexer(%d)/8b/wide-sel" % n, stream.Demultiplexer(L8, n), n, nb=8)))
+    B(lambda: fifo(1, True, L64, 64, "SyncFIFO(1,buffered)/64b/glue", glue=True))
+    B(lambda: fifo(11, True, ED([("data", 8)], [("p", 4)]), 12, "SyncFIFO(11,buffered)/8b+p4/glue", glue=True))
+    B(lambda: fifo(6, False, L64, 64, "SyncFIFO(6)/64b/glue", glue=True))
+    B(lambda: mk_up(7, 8, True, raw=False, glue=True))
+    B(lambda: mk_up(3, 16, False, conv_vtc=True, glue=True))
+    B(lambda: mk_down(7, 8, False, raw=False, glue=True))
+    B(lambda: mk_down(12, 4, True, conv_vtc=True, glue=True))
+    return J
+
+
+def all_jobs(tier):
+    return jobs(tier) + glue_jobs(tier)
+
+
 MAKERS = {"up": lambda *a: mk_up(*a), "down": lambda *a: mk_down(*a), "pack": lambda *a: mk_pack(*a),
           "unpack": lambda *a: mk_unpack(*a), "stride": lambda *a: mk_stride(*a),
           "gearbox": lambda *a: mk_gearbox(*a), "gate": lambda *a: mk_gate(*a), "delay": lambda *a: mk_delay(*a),
           "shifter": lambda *a: mk_shifter(*a), "pipeactor": lambda *a: mk_pipeactor(*a),
-          "crossbar": lambda *a: mk_crossbar(*a),
+          "crossbar": lambda *a: mk_crossbar(*a), "stages": lambda *a: mk_stages(*a),
+          "bufferize": lambda *a: mk_bufferize(*a), "monitor": lambda *a: mk_monitor(*a),
           "mux": lambda n: L.MuxInst("Multiplexer(%d)" % n, stream.Multiplexer(L1, n), n, nb=1),
           "demux": lambda n: L.DemuxInst("Demultiplexer(%d)" % n, stream.Demultiplexer(L1, n), n, nb=1)}
 
@@ -515,7 +823,8 @@ def corpus(ctx):
 
 def correspond(ctx):
     dis = corpus(ctx)
-    ctx.jobs = jobs(ctx.tier)
+    dis += glue_calls(ctx)
+    ctx.jobs = all_jobs(ctx.tier)
     d2, bad = run_jobs(ctx, ctx.jobs)
     return dis + d2
 
@@ -525,7 +834,7 @@ def search(ctx, disagreements, proof_info):
     are replayed and extended on the real code with the property oracle armed; a trace on which an oracle already
     fired during co-simulation is delta-debugged before it is reported."""
     from explore import search_failing_input, shrink
-    all_jobs = getattr(ctx, "jobs", None) or jobs(ctx.tier)
+    all_jobs = getattr(ctx, "jobs", None) or globals()["all_jobs"](ctx.tier)
     import time
     deadline = time.time() + (45 if ctx.tier == "quick" else 300)
     by_job = {}
@@ -587,4 +896,4 @@ def replay(ctx, payload):
             return 1
         print("finding witness passes on the current tree")
         return 0
-    return generic_replay(ctx, payload, jobs("thorough"))
+    return generic_replay(ctx, payload, all_jobs("thorough"))
